@@ -211,12 +211,13 @@ type ghostWriteRec struct {
 	cond string
 	data SliceVal
 	arr  string // content array at the time of the write
+	n    string // number of writes this record stands for ("" = one): the writes of a callee taken by contract
 }
 
 func (e *Engine) ghostWrite(reach string, p SliceVal, heap Heap) {
 	c := e.comp(types.NewSlice(types.Typ[types.Uint8]), []pathElem{{field: -1}}, "", SI8)
 	arr := e.sc.define("wr_arr", arrSort(SI64, SI8), e.sc.selIdx(e.heapGet(heap, c), p.Arr))
-	e.ghostWrites = append(e.ghostWrites, ghostWriteRec{reach, p, arr})
+	e.ghostWrites = append(e.ghostWrites, ghostWriteRec{cond: reach, data: p, arr: arr})
 }
 
 func (e *Engine) ghostEvent(kind, reach, arg string) {
